@@ -3,8 +3,9 @@ from props.node_snips import SN
 EXPLANATION = 'announce throttle and lock-out kernels of Node on a partial Node: for every timed sequence of announces (two peers interleaved) an announce gets through exactly when it respects the minimum interval and the burst limit of the window; three rejections within 120 s lock a peer out for exactly 180 s'
 ASSUMPTIONS = ['register_incoming_announce, announce_sender_locked, record_announce_failure, clear_announce_failures and the three lock-out constants are lifted textually from the current core/Node.cpp and compiled against the real class declaration; only the members they touch exist',
                'the admissibility gate of handle_announce (sender not locked out, announcer == sender, decodable unexpired manifest, threshold/assigned shards, PoW and version) is NOT encoded: only the throttle/lock-out clause of the property is decided',
-               'times are whole seconds, advances 0..255 s between events; min interval 1..63 s, burst limit 1..3, window >= min interval and <= 255 s; 4 (quick) / 6 (thorough) events']
+               'independence jobs: two nodes receive the same two announces; one of them then sees four failure / lock-out query / clear operations for the same peer at symbolic times; a final announce must get the same verdict on both', 'times are whole seconds, advances 0..255 s between events; min interval 1..63 s, burst limit 1..3, window >= min interval and <= 255 s; 4 (quick) / 6 (thorough) events']
 def jobs(tier):
     k = 4 if tier == 'quick' else 6
     return [Job('throttle-k%d' % k, 'node_kern.cpp', 'h_c21_throttle', [k], reach=['admitted', 'throttled'], snippets=SN, timeout=3000, bounds='%d announces, two peers' % k),
+            ] + [Job('independence-op%d' % w, 'node_kern.cpp', 'h_c21_independence', [w], reach=['compared'], snippets=SN, timeout=3000, bounds='2 announces, 4 lock-out operations (kind %d), 1 announce; all gaps 0..255 s' % w) for w in (0, 1, 2)] + [
             Job('lockout-k%d' % (k + 1), 'node_kern.cpp', 'h_c21_lockout', [k + 1], reach=['locked', 'unlocked', 'lockout-started'], snippets=SN, timeout=3000, bounds='%d failure/query events' % (k + 1))]
